@@ -66,8 +66,26 @@ type c17Req struct {
 // it up front, it has to cut it off where the limit is reached
 func (rq c17Req) undeclared() bool { return strings.Contains(rq.name, "undeclared-length") }
 
+// accept: what the request says about the answers it takes (a rejection may be worded for it;
+// it stays a rejection)
+func (rq c17Req) accept() string {
+	switch {
+	case strings.Contains(rq.name, "accept-json-q"):
+		return "text/html;q=0.5, Application/JSON;q=0.9"
+	case strings.Contains(rq.name, "accept-json"):
+		return "application/json"
+	case strings.Contains(rq.name, "accept-any"):
+		return "*/*"
+	case strings.Contains(rq.name, "accept-xml"):
+		return "application/xml, text/xml"
+	}
+	return ""
+}
+
 // requests on both sides of each rejecting plugin's decision, including near misses
-var c17Reqs = []c17Req{{"oversized-body-undeclared-length", true, 64, "", "", ""}, {"body-at-limit-undeclared-length", true, 8, "", "", ""}, {"accepted", true, 4, "", "", ""}, {"no-api-key", false, 4, "custom-auth", "", ""}, {"oversized-body", true, 64, "size_limit", "", ""},
+var c17Reqs = []c17Req{{"no-api-key-accept-json", false, 4, "custom-auth", "", ""}, {"wrong-key-accept-json-q", true, 4, "custom-auth", "sesam", ""}, {"no-api-key-accept-any", false, 4, "custom-auth", "", ""},
+	{"no-api-key-accept-xml", false, 4, "custom-auth", "", "GET"}, {"oversized-body-accept-json", true, 64, "size_limit", "", ""}, {"accepted-accept-json", true, 4, "", "", ""},
+	{"oversized-body-undeclared-length", true, 64, "", "", ""}, {"body-at-limit-undeclared-length", true, 8, "", "", ""}, {"accepted", true, 4, "", "", ""}, {"no-api-key", false, 4, "custom-auth", "", ""}, {"oversized-body", true, 64, "size_limit", "", ""},
 	{"body-at-limit", true, 8, "", "", ""}, {"body-one-over-limit", true, 9, "size_limit", "", ""},
 	{"key-other-case", true, 4, "custom-auth", "SESAME", ""}, {"key-capitalised", true, 4, "custom-auth", "Sesame", ""},
 	{"key-prefix", true, 4, "custom-auth", "sesam", ""}, {"key-extended", true, 4, "custom-auth", "sesame1", ""},
@@ -128,6 +146,9 @@ func c17Order(r *vres.Report, maxLen int) {
 						kv = "sesame"
 					}
 					req.Header.Set("X-API-Key", kv)
+				}
+				if a := rq.accept(); a != "" {
+					req.Header.Set("Accept", a)
 				}
 				if rq.undeclared() {
 					req.ContentLength = -1
@@ -353,6 +374,15 @@ func c17Binary(t *testing.T, r *vres.Report) {
 		"size_limit-negative": "    - name: logging\n    - name: size_limit\n      config:\n        max_request_body: -1\n",
 		"custom-auth-no-key":  "    - name: custom-auth\n",
 		"headers-scalar":      "    - name: headers\n      config:\n        set: nope\n",
+		// the keys of a chain entry themselves: "config" misspelt, capitalised, or an option
+		// written one level too high - the options the operator gave are then not in force
+		"misspelt-config-key":     "    - name: size_limit\n      confg:\n        max_request_body: 100\n",
+		"capitalised-config-key":  "    - name: size_limit\n      Config:\n        max_request_body: 100\n",
+		"option-at-entry-level":   "    - name: size_limit\n      max_request_body: 100\n",
+		"auth-key-at-entry-level": "    - name: custom-auth\n      config:\n        apiKey: sesame\n      enabled: false\n",
+		// and of the plugins section: a chain under a misspelt key is no chain at all
+		"@misspelt-chain-key":   "plugins:\n  enabled: true\n  chains:\n    - name: custom-auth\n      config:\n        apiKey: sesame\n",
+		"@misspelt-enabled-key": "plugins:\n  enable: true\n  chain:\n    - name: custom-auth\n      config:\n        apiKey: sesame\n",
 	}
 	dir := t.TempDir()
 	var evals int64
@@ -360,6 +390,9 @@ func c17Binary(t *testing.T, r *vres.Report) {
 	for label, chain := range chains {
 		port := freePort()
 		yaml := fmt.Sprintf("server:\n  port: %d\nbackends:\n  - name: b0\n    address: %q\nload_balancer:\n  strategy: round_robin\nplugins:\n  enabled: true\n  chain:\n%slogging:\n  level: error\n  format: json\n", port, be.URL(), chain)
+		if strings.HasPrefix(label, "@") {
+			yaml = fmt.Sprintf("server:\n  port: %d\nbackends:\n  - name: b0\n    address: %q\nload_balancer:\n  strategy: round_robin\n%slogging:\n  level: error\n  format: json\n", port, be.URL(), chain)
+		}
 		path := filepath.Join(dir, label+".yaml")
 		os.WriteFile(path, []byte(yaml), 0o644)
 		cmd := exec.Command(bin, "-config", path)
